@@ -68,6 +68,24 @@ func init() {
 			for i, f := range fns {
 				d.Do(Ev{"op": "sem.parse", "in": B(in), "fn": f.fn, "rule": f.rule, "T": []string{"s", "b"}[(i+len(in))%2]})
 			}
+			// one read buffer, two records, nothing in between: this text through the []byte
+			// instantiation, then the buffer refilled with a text of the same length - its last byte
+			// changed (another version or another refusal), or one byte turned into a second dot or a
+			// leading zero (a refusal) - and parsed again. Each is judged like any other parse.
+			if len(in) > 0 {
+				fn := fns[len(in)%4]
+				d.Do(Ev{"op": "sem.parse", "in": B(in), "fn": fn.fn, "rule": fn.rule, "T": "b"})
+				in2 := append([]byte(nil), in...)
+				switch k := len(in) % 3; {
+				case k == 0:
+					in2[len(in2)-1] = "1234567890"[int(in2[len(in2)-1])%10]
+				case k == 1 && len(in2) > 2:
+					in2[len(in2)/2] = '.'
+				default:
+					in2[len(in2)-1] ^= 1
+				}
+				d.Do(Ev{"op": "sem.parse", "in": B(in2), "fn": fn.fn, "rule": fn.rule, "T": "b"})
+			}
 			d.S.Boundary()
 		}
 		num := func() string {
